@@ -67,7 +67,8 @@ def isAncestorLoop (idx : Index) (a ga : Nat) : Nat â†’ List Nat â†’ List Nat â†
     else isAncestorLoop idx a ga fuel ((parentsOf idx d).reverse ++ work) (d :: visited)
 
 /-- number of parent edges of the whole index -/
-def numEdges (idx : Index) : Nat := (idx.map fun e => e.parents.length).sum
+def numEdges (idx : Index) : Nat :=
+  ((List.range idx.length).map fun p => (parentsOf idx p).length).sum
 
 /-- fuel handed to `isAncestorLoop`: one step per stack pop; at most `1 + #edges` pops happen -/
 def ancFuel (idx : Index) : Nat := numEdges idx + 2
